@@ -286,3 +286,34 @@ def GeomOp.okFor (d : Dim) : GeomOp → Prop
   | .setDimensions D => D.length = d.toNat ∧ ∀ x ∈ D, (0 : Rat) < x
 
 end Darsia
+
+/-! ### remaining call forms -/
+namespace Darsia
+
+/-- target class of `BasePoint.to(cls, coordinatesystem)`: Coordinate(Array) / Voxel(Array) / VoxelCenter(Array) / anything else -/
+inductive PtKind | coord | vox | ctr | other
+  deriving Repr, DecidableEq
+
+/-- `BasePoint.to(cls, coordinatesystem)`: dispatch on the class, NotImplementedError otherwise -/
+def Pt.to (cs : CS) (k : PtKind) (p : Pt) : Except Err Pt :=
+  match k with
+  | .coord => p.toCoordinate cs
+  | .vox => p.toVoxel cs
+  | .ctr => p.toVoxelCenter cs
+  | .other => .error .notImpl
+
+/-- Python container handed to `coordinate` / `voxel` -/
+inductive CallForm | list | tuple | array
+  deriving Repr, DecidableEq
+
+/-- `CoordinateSystem.coordinate` converts tuples and lists to arrays -/
+def CS.coordinateForm (cs : CS) (_f : CallForm) (v : List Rat) : Except Err (List Rat) := cs.coordinate v
+
+/-- `CoordinateSystem.voxel` converts lists only: a tuple fails `assert isinstance(coordinate, np.ndarray)` -/
+def CS.voxelForm (cs : CS) (f : CallForm) (x : List Rat) : Except Err (List Int) :=
+  match f with
+  | .tuple => .error .assertion
+  | _ => cs.voxel x
+
+end Darsia
+
